@@ -37,6 +37,7 @@ func init() {
 		ruleT12(c, "C04.S17")
 		ruleSelfRename(c, "C04.S18")
 		ruleDoneMeansWritten(c, "C04.S19")
+		ruleB22(c, "C04.S20")
 	}
 }
 
